@@ -16,7 +16,7 @@ def _snap(x, numeric, den=GRID):
     return Fraction(int(round(x * den)), den)
 
 
-def polygon(rng, numeric="frac", nmin=3, nmax=8, center=None, rmin=1.0, rmax=4.0, tries=60):
+def polygon(rng, numeric="frac", nmin=3, nmax=8, center=None, rmin=1.0, rmax=4.0, tries=60, den=GRID):
     """A simple polygon (CCW list of vertices) in general position: star-shaped about
     its centre before snapping to the grid, verified simple after snapping, no collinear
     consecutive vertices, features >= 1/4."""
@@ -37,7 +37,7 @@ def polygon(rng, numeric="frac", nmin=3, nmax=8, center=None, rmin=1.0, rmax=4.0
         verts = []
         for a in angles:
             r = rng.uniform(rmin, rmax) * scale
-            verts.append((_snap(cx + r * math.cos(a), base), _snap(cy + r * math.sin(a), base)))
+            verts.append((_snap(cx + r * math.cos(a), base, den), _snap(cy + r * math.sin(a), base, den)))
         if len(set(verts)) != n:
             continue
         if not kernel.simple_polygon(verts):
@@ -112,8 +112,9 @@ def curved_chain(rng, numeric="frac", degree=2, nmin=3, nmax=6, center=None):
             continue
         if kernel.chain_area(chain) <= 0:
             continue
-        if numeric == "float":
-            chain = tuple(tuple((float(x), float(y)) for x, y in seg) for seg in chain)
+        # curved data are always floats: the library runs Newton iterations in exact
+        # arithmetic on rational curved segments, whose cost explodes (minutes per call)
+        chain = tuple(tuple((float(x), float(y)) for x, y in seg) for seg in chain)
         return chain
     return None
 
